@@ -44,6 +44,24 @@ CLAIMED["C04"] = ("Theorem C04_commute_sound (coq/Properties/C04.v): for all 36 
                   "(all pairs x parameter shapes x targets of <=2/3 rows), which also compares the model's commute with the "
                   "real one. Known finding F2 (Projection past Deduplication, pinned by the suite) is excluded from the theorem "
                   "with a refutation witness and reported as KNOWN-FINDING.", "DESIGN.md §4 C04")
+CLAIMED["C14"] = ("Theorems C14_* (coq/Properties/C14.v): iteration-engine programs of any length build node-locally well-formed "
+                  "trees without placeholder nodes; the documented no-op calls (projection onto all columns, empty sort, "
+                  "transfer to the own engine) return the relation itself in every engine and with every option. For trees that "
+                  "involve the SQL engine and backtracking, well-formedness of every node is decided per run by evaluating the "
+                  "Coq predicate wf_reach on the real trees of random multi-engine programs (the model's build is compared too); "
+                  "a theorem for that part is not yet proved (partial).", "DESIGN.md §4 C14")
+CLAIMED["C15"] = ("Theorems C15_* (coq/Properties/C15.v): Transfer.simplify returns a content-equal subtree, materializing a locked "
+                  "relation adds nothing, backtracking stops at a locked node and _finish_apply keeps a locked target as operand. "
+                  "Object identity of locked nodes across every factory call is checked on the real library per run.",
+                  "DESIGN.md §4 C15")
+CLAIMED["C17"] = ("Theorems C17_* (coq/Properties/C17.v): conform and every append rule return a SELECT marker, conform is "
+                  "idempotent, compound flag iff skip target is a chain. Marker coherence is evaluated on real trees per run "
+                  "(known finding F13: apply_skip's simplification can swallow an unused calculation, witness in Coq); content "
+                  "preservation of conform is C02's concern.", "DESIGN.md §4 C17")
+CLAIMED["C20"] = ("Theorems C20_* (coq/Properties/C20.v): an operation's own checks precede all preferred-engine logic, so a missing "
+                  "column, an existing tag, a bad slice, mismatched chain operands, an unsupported expression or a join predicate "
+                  "with a missing column is rejected with the documented class for every option combination; single ill-typing "
+                  "edits of random multi-engine programs are replayed on the real library per run.", "DESIGN.md §4 C20")
 NOT_APPLICABLE = {}
 
 
